@@ -70,7 +70,9 @@ class Geometry:
                 self.dimensions[i] / self.num_voxels[i] for i in range(self.space_dim)
             ]
 
-        self.voxel_volume = np.float64(np.prod(self.voxel_size))
+        # NOTE: Multiply in double precision, irrespective of the type of the sizes
+        # (integers may overflow, single precision is inaccurate).
+        self.voxel_volume = np.prod(np.asarray(self.voxel_size, dtype=np.float64))
         """Volume (area in 2d) of a single voxel."""
         self.cached_voxel_volume = self.voxel_volume.copy()
         """Internal copy of the voxel volume for efficient integration."""
